@@ -22,3 +22,6 @@ def run(ctx):
     ctx.guard(fragment_cache_rule, ctx, "C10.no-fragment-cache")
     from ..rules_flow import k17_entry
     ctx.guard(k17_entry, ctx, "C10")
+    from ..rules_flow import ctor_rule, getitem_rule
+    ctx.guard(getitem_rule, ctx, "C10.freshness.getitem")
+    ctx.guard(ctor_rule, ctx, "C10.freshness.ctor")
